@@ -327,6 +327,48 @@ class Executor:
             self._subscript(op[1])
 
     _GEN: t.List[t.Any] = []
+    _REGISTERED: t.List[t.Any] = []
+
+    def _register_after_use(self) -> None:
+        """Once per process: a type is converted with the built-in machinery, then a global handler for it is registered.  A
+        converter freshly built for the type would now come from the handler (registered handlers are consulted before the structural
+        built-ins); the memoised lookup must behave the same."""
+        import pane
+        from pane.converters import Converter
+
+        class RegList(list):      # type: ignore
+            pass
+
+        Holder = type('RegHolder', (pane.PaneBase,), {'__annotations__': {'items': RegList}})
+
+        class Conv(Converter):      # type: ignore
+            def expected(self, plural: bool = False) -> str:
+                return 'registered list'
+
+            def try_convert(self, val: t.Any) -> t.Any:
+                return RegList(['from-the-registered-handler'])
+
+            def collect_errors(self, val: t.Any) -> t.Any:
+                return None
+
+            def into_data(self, val: t.Any) -> t.Any:
+                return list(val)
+        conv = Conv()
+
+        def handler(ty: t.Any, args: t.Any, *, handlers: t.Any) -> t.Any:
+            return conv if ty is RegList else NotImplemented
+        first = (outcome(lambda: pane.from_data([1], RegList)), outcome(lambda: pane.from_data({'items': [1]}, Holder)))
+        from pane.convert import register_converter_handler
+        register_converter_handler(handler)
+        self.ctx.evaluated()
+        after = (outcome(lambda: pane.from_data([1], RegList)), outcome(lambda: pane.from_data({'items': [1]}, Holder)))
+        got = [list(after[0][1]) if after[0][0] == 'ok' else after[0], list(after[1][1].items) if after[1][0] == 'ok' else after[1]]
+        if got != [['from-the-registered-handler']] * 2:
+            self.ctx.fail('history-independent', 'handler-registered-after-first-use',
+                          f"class RegList(list) converted once (-> {short(first[0][1], 40)}), then register_converter_handler(handler for RegList): "
+                          f"from_data([1], RegList) and a dataclass field of that type now give {short(got, 100)}; a converter built afresh "
+                          f"comes from the handler")
+        self.ctx.label('register-after-use')
 
     def _subscript(self, n: int) -> None:
         import pane
@@ -429,6 +471,18 @@ class Executor:
                 self.ctx.fail('history-independent', 'generic-subscription', f"after {n} subscriptions G[{arg}] accepts {good!r}: {k1}, refuses {bad!r}: {k2}")
                 return
         self.ctx.label('mass-subscription')
+
+
+def register_cases(shard: int, nshards: int) -> t.Iterator[t.Any]:
+    # a handful of registrations per run (every registered handler stays for the life of the process)
+    for i in range(8):
+        if i % nshards == shard:
+            yield [i]
+
+
+def check_register(case: t.Any, ctx: Ctx) -> None:
+    ctx.nontrivial(True)
+    Executor(ctx)._register_after_use()
 
 
 def check_history(case: t.Any, ctx: Ctx) -> None:
@@ -598,5 +652,6 @@ def suites(tier: str) -> t.List[Suite]:
     return [
         Suite('history', check_history, stateful=lambda: make_machine(steps, big), examples=400 if big else 40, step_count=steps,
               budget_s=480 if big else 45, render=render),
+        Suite('register-after-use', check_register, cases=register_cases, exhaustive=True, budget_s=30, render=lambda c: {'registration': c[0]}),
         Suite('keycache', check_keycache, strategy=keycache_cases, examples=3000 if big else 300, budget_s=60),
     ]
